@@ -36,6 +36,7 @@ pub fn abstract_trace(w: &World) -> Vec<String> {
             Ev::HeightTold { h, via } => format!("[{t}] height {h} told via {via}"),
             Ev::NodeHeight { h } => format!("[{t}] node height {h}"),
             Ev::Crash { down_s, lose_last } => format!("[{t}] CRASH (down {down_s}s, lose_last={lose_last})"),
+            Ev::ClockBack { secs } => format!("[{t}] wall clock stepped back {secs}s during the downtime"),
             Ev::Notify { .. } => format!("[{t}] failure notification"),
             Ev::Panic { msg } => format!("[{t}] PANIC {}", &msg[..msg.len().min(100)]),
             Ev::CallResult { call, result } => format!("[{t}] call{call} returned {result}"),
@@ -455,7 +456,7 @@ pub fn family(base: &Scenario) -> Vec<Scenario> {
     let beyond = ((base.cfg.mpp_timeout_s + 10) / 5).min(200) as u8;
     let mut out = vec![base.clone()];
     for k in 1..=m {
-        for (down, lose) in [(0u8, false), (0u8, true), (beyond, false)] {
+        for (down, lose) in [(0u8, false), (0u8, true), (beyond, false), (255u8, false)] {
             let mut s = base.clone();
             s.crash_at = vec![(k, down, lose)];
             out.push(s);
@@ -494,7 +495,7 @@ pub fn enumerate_faults(s: &mut Session, prop: &'static str, nbases: usize, prof
         all.extend(family(b));
     }
     let case = world_case(prop, nontrivial, classes);
-    s.extra.insert("fault_enumeration".into(), json!({"base_histories": nbases, "variants": all.len(), "per_base": "every node-side effect index k x {crash, crash losing the last answers, crash with downtime beyond the MPP timeout} + every datastore write x {rejected, applied-but-reported-failed}"}));
+    s.extra.insert("fault_enumeration".into(), json!({"base_histories": nbases, "variants": all.len(), "per_base": "every node-side effect index k x {crash, crash losing the last answers, crash with downtime beyond the MPP timeout, crash with a 100 000 s outage} + every datastore write x {rejected, applied-but-reported-failed}"}));
     s.enumerate("enumerate-crash-points-and-write-faults", "world", all, case);
 }
 
